@@ -10,7 +10,6 @@ from .build import AnalysisBroken
 
 
 def main():
-    sys.setrecursionlimit(50000)
     ap = argparse.ArgumentParser()
     ap.add_argument('prop', nargs='?')
     ap.add_argument('--tier', default=os.environ.get('VERIF_TIER', 'quick'))
@@ -41,4 +40,15 @@ def main():
 
 
 if __name__ == '__main__':
-    sys.exit(main())
+    import threading
+    threading.stack_size(768 * 1024 * 1024)
+    sys.setrecursionlimit(2000000)
+    box = {}
+
+    def runner():
+        box['rc'] = main()
+
+    th = threading.Thread(target=runner)
+    th.start()
+    th.join()
+    sys.exit(box.get('rc', 2))
